@@ -24,10 +24,10 @@ import (
 // C11: a dealer whose private deal contradicts its public commitments is caught.
 func init() { Register("C11", "exploration", checkC11) }
 
-var c11Kinds = []string{"deal-bitflip", "deal-truncated", "deal-10-bytes", "deal-1-byte", "deal-9-bytes", "deal-to-wrong-key", "deal-from-other-polynomial", "deal-share-off-polynomial", "commitments-shortened", "commitments-lengthened", "response-turned-into-complaint", "response-turned-into-signed-complaint"}
+var c11Kinds = []string{"deal-bitflip", "deal-truncated", "deal-10-bytes", "deal-1-byte", "deal-9-bytes", "deal-to-wrong-key", "deal-from-other-polynomial", "deal-share-off-polynomial", "commitments-shortened", "commitments-lengthened", "commitments-constant-term-replaced", "commitments-second-term-replaced", "commitments-top-term-replaced", "response-turned-into-complaint", "response-turned-into-signed-complaint"}
 
 func checkC11(c *Ctx) {
-	c.Rule = "full key generations in which the operator driver rewrites one dealer's result between its machine and its node: deal ciphertext bit-flipped / truncated / cut to 10 bytes, deal re-encrypted to another participant's key, a self-consistent deal from a second kyber dealer with the dealer's long-term key but fresh coefficients, broadcast commitment list shortened / lengthened, a response turned into a complaint; every (dealer, victim) pair, all (n,t) with n<=3 (quick) / n<=4 (thorough), random delivery. Oracle at quiescence: the victim's machine answered the responses step with the error event, no node is signing-ready and every node is in a cancelled state, no machine stores a keyring for the round; on any signing-ready round the C02 invariant must hold. A third of the runs: the victim's operations are stamped two minutes ahead of the other nodes' clocks. Every call into a machine runs under the hang observation (a machine that never answers is a violation). Honest control runs must reach signing-ready. distinct = distinct (n,t,kind,dealer,victim)"
+	c.Rule = "full key generations in which the operator driver rewrites one dealer's result between its machine and its node: deal ciphertext bit-flipped / truncated / cut to 10 bytes, deal re-encrypted to another participant's key, a self-consistent deal from a second kyber dealer with the dealer's long-term key but fresh coefficients, broadcast commitment list shortened / lengthened / one term (constant, second, top) replaced by another valid point, a response turned into a complaint; every (dealer, victim) pair, all (n,t) with n<=3 (quick) / n<=4 (thorough), random delivery. Oracle at quiescence: the victim's machine answered the responses step with the error event, no node is signing-ready and every node is in a cancelled state, no machine stores a keyring for the round; on any signing-ready round the C02 invariant must hold. A third of the runs: the victim's operations are stamped two minutes ahead of the other nodes' clocks. Every call into a machine runs under the hang observation (a machine that never answers is a violation). Honest control runs must reach signing-ready. distinct = distinct (n,t,kind,dealer,victim)"
 	c.Assumptions = []string{"the victim's long-term key is re-derived from its mnemonic (validated against GetPubKey) to re-encrypt deals", "kyber's own dealer is used to build the contradicting deal"}
 	type job struct {
 		n, t, D, V int
@@ -41,7 +41,7 @@ func checkC11(c *Ctx) {
 					if V == D {
 						continue
 					}
-					if (k == "commitments-shortened" || k == "commitments-lengthened" || k == "response-turned-into-complaint" || k == "response-turned-into-signed-complaint") && V != (D+1)%nt.N {
+					if (strings.HasPrefix(k, "commitments-") || k == "response-turned-into-complaint" || k == "response-turned-into-signed-complaint") && V != (D+1)%nt.N {
 						continue // these deviations are broadcast: one run per dealer
 					}
 					jobs = append(jobs, job{nt.N, nt.T, D, V, k})
@@ -165,15 +165,24 @@ func runC11(c *Ctx, n, t, D, V int, kind string, seed uint64) {
 				m.Data, _ = json.Marshal(r)
 				applied = true
 			}
-		case string(req.Type) == OpCommits && (kind == "commitments-shortened" || kind == "commitments-lengthened"):
+		case string(req.Type) == OpCommits && strings.HasPrefix(kind, "commitments-"):
 			var r requests.DKGProposalCommitConfirmationRequest
 			if len(res.ResultMsgs) == 1 && json.Unmarshal(res.ResultMsgs[0].Data, &r) == nil {
 				var cs [][]byte
 				if json.Unmarshal(r.Commit, &cs) == nil && len(cs) > 0 {
-					if kind == "commitments-shortened" {
+					switch kind {
+					case "commitments-shortened":
 						cs = cs[:len(cs)-1]
-					} else {
+					case "commitments-lengthened":
 						cs = append(cs, cs[0])
+					case "commitments-constant-term-replaced":
+						// one term of the broadcast list replaced by another valid point: same length,
+						// every element decodes, only the comparison term by term can tell
+						cs[0] = cs[len(cs)-1]
+					case "commitments-second-term-replaced":
+						cs[1%len(cs)] = cs[0]
+					case "commitments-top-term-replaced":
+						cs[len(cs)-1] = cs[0]
 					}
 					r.Commit, _ = json.Marshal(cs)
 					res.ResultMsgs[0].Data, _ = json.Marshal(r)
